@@ -13,7 +13,7 @@ EXTENDS Integers, Sequences, FiniteSets, TLC, Json, CSV, IOUtils
 CONSTANT MaxDepth
 
 Kinds  == {"throw", "div", "builtin", "nargs", "index", "notcallable", "forin", "slice", "selector", "setindex", "setselector", "constuse", "constcall", "foldmixed", "foldcall"}
-Styles == {"stmt", "assign", "retplus", "closure", "recur", "module", "method", "bare", "baremod", "inblock", "tryfin", "mutual", "recur2",
+Styles == {"stmt", "assign", "retplus", "closure", "recur", "module", "method", "bare", "baremod", "inblock", "tryfin", "mutual", "recur2", "callback", "callback2",
            "ifcond", "forcond", "ternary", "argument", "index"}
 Blanks == {0, 1, 3}
 
@@ -32,6 +32,10 @@ CallLine(st, g) == CASE st = "stmt" -> L("callstmt", g, "")
                      [] st = "ternary" -> L("callternary", g, "")
                      [] st = "argument" -> L("callarg", g, "")
                      [] st = "index" -> L("callindex", g, "")
+                     \* the function is called by the host (a Go function calling back through a pooled / unpooled Invoker):
+                     \* the statement that called the Go function is the call statement of the function still active
+                     [] st = "callback" -> L("callcb", g, "")
+                     [] st = "callback2" -> L("callcb2", g, "")
                      [] OTHER -> L("callstmt", g, "")
 
 \* chain f1 -> f2 -> ... -> fd, fd fails; definitions first (innermost first), then the call in main
